@@ -37,6 +37,7 @@ type Spec struct {
 	Outside     []string       `json:"outside_bounds"`
 	Bounds      map[string]string `json:"bounds"`
 	NativeOnlyReplay bool      `json:"native_driver"` // replay uses harness/<id>/replay_test.go
+	HDir string `json:"-"` // harness directory name (C20, C20b, ...)
 	// ExtraOverlay: repo-relative package dir -> file in harness/<id>/ (not ending in .go, e.g.
 	// "export_db.go.txt") overlaid into THAT package as zz_verif_<id>_<file>.go; used to export
 	// unexported functions of a second package to the harness package.
@@ -110,6 +111,22 @@ func main() {
 	os.Exit(2)
 }
 
+// specDirs lists the harness directories of a property: <id> and <id> followed by one lower-case letter.
+func specDirs(prop string) []string {
+	var out []string
+	ents, _ := os.ReadDir(filepath.Join(verifDir, "harness"))
+	for _, e := range ents {
+		n := e.Name()
+		if n == prop || (len(n) == len(prop)+1 && strings.HasPrefix(n, prop) && n[len(n)-1] >= 'a' && n[len(n)-1] <= 'z') {
+			if _, err := os.Stat(filepath.Join(verifDir, "harness", n, "spec.json")); err == nil {
+				out = append(out, n)
+			}
+		}
+	}
+	sort.Strings(out)
+	return out
+}
+
 func loadSpec(prop string) (*Spec, error) {
 	b, err := os.ReadFile(filepath.Join(verifDir, "harness", prop, "spec.json"))
 	if err != nil {
@@ -119,6 +136,7 @@ func loadSpec(prop string) (*Spec, error) {
 	if err := json.Unmarshal(b, &s); err != nil {
 		return nil, fmt.Errorf("spec.json: %w", err)
 	}
+	s.HDir = prop
 	return &s, nil
 }
 
@@ -145,7 +163,7 @@ var pkgClause = regexp.MustCompile(`(?m)^package\s+\w+`)
 func buildOverlay(spec *Spec, forTest bool) (map[string][]byte, error) {
 	ov := map[string][]byte{}
 	dst := filepath.Join(repoDir, spec.Dir)
-	hdir := filepath.Join(verifDir, "harness", spec.Property)
+	hdir := filepath.Join(verifDir, "harness", spec.HDir)
 	ents, err := os.ReadDir(hdir)
 	if err != nil {
 		return nil, err
@@ -210,6 +228,7 @@ func buildOverlay(spec *Spec, forTest bool) (map[string][]byte, error) {
 
 // ReplayFile is what a solver model is stored as.
 type ReplayFile struct {
+	Harness  string         `json:"harness,omitempty"`
 	Property string         `json:"property"`
 	Entry    string         `json:"entry"`
 	Expect   string         `json:"expect"` // "violated <id>" | "finding <id>"
@@ -320,7 +339,11 @@ func replayCmd(path string) int {
 		fmt.Fprintln(os.Stderr, err)
 		return 2
 	}
-	spec, err := loadSpec(rf.Property)
+	hd := rf.Harness
+	if hd == "" {
+		hd = rf.Property
+	}
+	spec, err := loadSpec(hd)
 	if err != nil {
 		fmt.Fprintln(os.Stderr, err)
 		return 2
@@ -355,14 +378,61 @@ func writeReplay(prop string, rf *ReplayFile) string {
 	return p
 }
 
+type accum struct {
+	results    []*sym.Result
+	problems   []string
+	violations int
+	validated  int
+	loadS      float64
+	merged     Spec
+}
+
 func check(prop, tier, only string, verbose bool) int {
 	t0 := time.Now()
 	os.Setenv("VERIF_TIER", tier) // native replays must see the same verifTier() as the symbolic run
 	seed, _ := strconv.ParseInt(os.Getenv("VERIF_SEED"), 10, 64)
-	spec, err := loadSpec(prop)
+	dirs := specDirs(prop)
+	if len(dirs) == 0 {
+		fmt.Fprintln(os.Stderr, "no harness for", prop)
+		return 2
+	}
+	acc := &accum{merged: Spec{Property: prop, Bounds: map[string]string{}}}
+	exit := 0
+	for _, d := range dirs {
+		// each harness directory is its own package overlay and replay binary
+		cleanupReplay()
+		replayBin, replayTmp, replayBuildOut, replayBuildErr = "", "", "", nil
+		code := checkSpec(d, prop, tier, only, verbose, seed, acc)
+		if code == 1 || (code == 2 && exit == 0) {
+			exit = code
+		}
+	}
+	evValidated = acc.validated
+	writeEvidence(&acc.merged, tier, seed, nil, acc.results, time.Since(t0).Seconds(), acc.loadS, acc.problems, acc.violations)
+	if exit == 0 {
+		fmt.Printf("OK property=%s tier=%s wall=%.1fs\n", prop, tier, time.Since(t0).Seconds())
+	}
+	return exit
+}
+
+func checkSpec(hdir, prop, tier, only string, verbose bool, seed int64, acc *accum) int {
+	t0 := time.Now()
+	spec, err := loadSpec(hdir)
 	if err != nil {
 		fmt.Fprintln(os.Stderr, "spec:", err)
+		acc.problems = append(acc.problems, "spec: "+err.Error())
 		return 2
+	}
+	if spec.Level != "" {
+		acc.merged.Level = spec.Level
+	}
+	acc.merged.Assumptions = append(acc.merged.Assumptions, spec.Assumptions...)
+	acc.merged.Outside = append(acc.merged.Outside, spec.Outside...)
+	for k, v := range spec.Bounds {
+		if len(specDirs(prop)) > 1 {
+			k = hdir + ": " + k
+		}
+		acc.merged.Bounds[k] = v
 	}
 	known := loadKnown()
 	ov, err := buildOverlay(spec, false)
@@ -374,7 +444,7 @@ func check(prop, tier, only string, verbose bool) int {
 	P, err := sym.Load(repoDir, ov, "./"+spec.Dir)
 	if err != nil {
 		fmt.Fprintln(os.Stderr, "load:", err)
-		writeEvidence(spec, tier, seed, nil, nil, time.Since(t0).Seconds(), 0, []string{"load failed: " + err.Error()}, 0)
+		acc.problems = append(acc.problems, hdir+": load failed: "+err.Error())
 		return 2
 	}
 	loadS := time.Since(tl).Seconds()
@@ -445,7 +515,7 @@ func check(prop, tier, only string, verbose bool) int {
 		// findings (recorded classes)
 		for _, id := range sortedKeys(r.Findings) {
 			f := r.Findings[id]
-			rf := &ReplayFile{Property: prop, Entry: e.Name, Expect: "finding " + id, Values: f.Values, Pos: f.Pos}
+			rf := &ReplayFile{Harness: hdir, Property: prop, Entry: e.Name, Expect: "finding " + id, Values: f.Values, Pos: f.Pos}
 			path := writeReplay(prop, rf)
 			ok := e.NoReplay
 			if !e.NoReplay {
@@ -479,7 +549,7 @@ func check(prop, tier, only string, verbose bool) int {
 				continue
 			}
 			tried[v.ID]++
-			rf := &ReplayFile{Property: prop, Entry: e.Name, Expect: "violated " + v.ID, Values: v.Values, Detail: v.Detail, Pos: v.Pos, Trace: v.Trace}
+			rf := &ReplayFile{Harness: hdir, Property: prop, Entry: e.Name, Expect: "violated " + v.ID, Values: v.Values, Detail: v.Detail, Pos: v.Pos, Trace: v.Trace}
 			path := writeReplay(prop, rf)
 			os.WriteFile(strings.TrimSuffix(path, ".json")+".smt2", []byte(v.Script), 0o644)
 			ok := e.NoReplay
@@ -526,11 +596,12 @@ func check(prop, tier, only string, verbose bool) int {
 			exit = 2
 		}
 	}
-	evValidated = validated
-	writeEvidence(spec, tier, seed, P, results, time.Since(t0).Seconds(), loadS, problems, violations)
-	if exit == 0 {
-		fmt.Printf("OK property=%s tier=%s wall=%.1fs\n", prop, tier, time.Since(t0).Seconds())
-	}
+	acc.results = append(acc.results, results...)
+	acc.problems = append(acc.problems, problems...)
+	acc.violations += violations
+	acc.validated += validated
+	acc.loadS += loadS
+	_ = t0
 	return exit
 }
 
